@@ -12,7 +12,7 @@ from ..universe import make_event, PK
 
 ID = "C19"
 LEVEL = "model_checking"
-ASSUMPTIONS = ["see C09; 'closes that one connection cleanly' = ws_close called or handler returns, registry entry removed, sender and query tasks finished"]
+ASSUMPTIONS = ["real nostr_relay code imported from /repo's working tree, driven through web.start_client / the storage API; SQLite runs for real behind a same-thread connection shim (bound to real aiosqlite by C06's conformance cases); LMDB is an in-memory double (bound to the real liblmdb by C10's conformance cases), msgpack is pip's pure-python codec; asyncio runs on a controlled virtual-time loop; 'closes that one connection cleanly' = ws_close called or handler returns, registry entry removed, sender and query tasks finished"]
 CHUNK = 1
 
 T = [None, True, 0, 5, 2 ** 70, -1, 1.5, "s", "", [], [1], [[]], {}, {"a": 1}]
@@ -206,7 +206,7 @@ def cases(tier):
         for emb in EMBED:
             for lo in range(0, len(names), blk):
                 out.append(("d0", backend, emb, tuple(names[lo:lo + blk]), tier))
-        sub = SUBSET if tier == "thorough" else SUBSET[:6]
+        sub = (SUBSET + [n for n in names[::3] if n not in SUBSET and not n.startswith("txt_1MB")]) if tier == "thorough" else SUBSET[:6]
         for hname in sub:
             out.append(("d1", backend, "mid", (hname,), tier))
     return out
@@ -349,7 +349,7 @@ def coverage(tier, agg):
                 "{between probes, twice, five times, followed by disconnect} x backends at the default schedule, plus every 1-deviation schedule for %d frames; "
                 "connection 2 subscribes before and submits after; oracle: nothing escapes start_client, no unretrieved task exception, later "
                 "probes answered or connection closed with registry entry and tasks gone, connection 2's transcript equal to the run without the "
-                "hostile frame, nothing left after both disconnect." % (len(HF()), len(T), len(SUBSET) if tier == "thorough" else 6),
+                "hostile frame, nothing left after both disconnect." % (len(HF()), len(T), (len(SUBSET) + len(HF()) // 3) if tier == "thorough" else 6),
         "backends": ["sql", "kv"],
     }
 
